@@ -257,6 +257,8 @@ pub fn alphabet(name: &str) -> Vec<String> {
         "tokens" => vec!["\\", "d", "D", "w", "W", "s", "S", "1", "a", " ", "-", "u", "{", "}", "n"],
         // letters whose lower-casing depends on context or that share a fold orbit without being case variants
         "sigma" => vec!["a", "b", "A", "\u{3c3}", "\u{3c2}", "\u{3a3}", "s", "\u{17f}", "S", "k", "\u{212a}", "\u{b5}", "\u{3bc}", "\u{39c}"],
+        // lower-case letters only that the engine folds onto each other (two spellings, no case difference)
+        "sigma_lower" => vec!["a", "b", "\u{3c3}", "\u{3c2}", "s", "\u{17f}", "\u{b5}", "\u{3bc}", "c"],
         "sgr" => vec!["\u{1b}", "[", "m", "0", "1", "3", ";", "]", "a", "^", "$", "(", ")", "\\", "9", " "],
         "mixed" => vec![
             "a", "b", "A", "1", " ", ".", "\\", "é", "💩", "\u{301}", "\n", "#", "-", "^", "]", "\u{a0}", "ß", "\u{10ffff}", "x", "y", "|", "(", "*",
